@@ -24,6 +24,7 @@ func SmallTable(rt *rapid.T, name string, minCols, maxCols, maxRows int) (model.
 	create := model.Stmt{Kind: "create", Table: name, Cols: cols}
 	create.SQL = RenderStmt(Plain(), create)
 	nrows := rapid.OneOf(rapid.IntRange(0, 6), rapid.IntRange(0, maxRows)).Draw(rt, "nrows")
+	bigExtremes := rapid.IntRange(0, 2).Draw(rt, "bigextremes") == 0
 	var inserts []model.Stmt
 	t := &model.Table{Name: name, Cols: cols}
 	for nrows > 0 {
@@ -32,6 +33,12 @@ func SmallTable(rt *rapid.T, name string, minCols, maxCols, maxRows int) (model.
 		for i := 0; i < k; i++ {
 			var row []model.Val
 			for _, c := range t.Cols {
+				if c.Type == model.TBigInt && bigExtremes {
+					// neighbours beyond 2^53: distinct integers that collide as float64
+					row = append(row, model.Int(rapid.SampledFrom([]int64{9007199254740992, 9007199254740993, 9007199254740994, 9223372036854775807,
+						9223372036854775806, 9223372036854775805, 4611686018427387905, 4611686018427387904, 0, 5}).Draw(rt, "bigv")))
+					continue
+				}
 				row = append(row, Value(rt, "v", c.Type, false, true, 8))
 			}
 			s.Rows = append(s.Rows, row)
@@ -404,7 +411,7 @@ func AggTables(rt *rapid.T) []model.Stmt {
 	var out []model.Stmt
 	t0 := model.Stmt{Kind: "create", Table: "t0", Cols: []model.Col{
 		{Name: "g1", Type: model.TInt}, {Name: "g2", Type: model.TVarchar, Len: 16}, {Name: "n", Type: model.TInt},
-		{Name: "v", Type: model.TInt}, {Name: "w", Type: model.TBigInt}}}
+		{Name: "v", Type: model.TInt}, {Name: "w", Type: model.TBigInt}, {Name: "g3", Type: model.TVarchar, Len: 16}}}
 	t0.SQL = RenderStmt(Plain(), t0)
 	out = append(out, t0)
 	nrows := rapid.SampledFrom([]int{0, 1, 2, 3, 4, 5, 8, 12, 20, 40, 60}).Draw(rt, "nrows")
@@ -412,7 +419,12 @@ func AggTables(rt *rapid.T) []model.Stmt {
 	for i := 0; i < nrows; i++ {
 		row := []model.Val{
 			model.Int(rapid.SampledFrom([]int64{1, 2, 3, 12, 23, 123}).Draw(rt, "g1")),
-			model.Str(rapid.SampledFrom([]string{"1", "12", "2", "", "<nil>", "true", "23", "3"}).Draw(rt, "g2")),
+		}
+		// grouping strings that collide when printed bare, joined or comma-separated; NULL next to "<nil>"
+		if rapid.IntRange(0, 5).Draw(rt, "g2null") == 0 {
+			row = append(row, model.Null())
+		} else {
+			row = append(row, model.Str(rapid.SampledFrom([]string{"1", "12", "2", "", "<nil>", "true", "23", "3", "a,b", "a", "1,2", ","}).Draw(rt, "g2")))
 		}
 		if rapid.IntRange(0, 2).Draw(rt, "nnull") == 0 {
 			row = append(row, model.Null())
@@ -424,6 +436,7 @@ func AggTables(rt *rapid.T) []model.Stmt {
 		} else {
 			row = append(row, model.Int(int64(rapid.IntRange(0, 3).Draw(rt, "v"))), model.Int(int64(rapid.IntRange(-3, 9).Draw(rt, "w"))))
 		}
+		row = append(row, model.Str(rapid.SampledFrom([]string{"b", "a,b", "", "2", "b,", ",b", "nil"}).Draw(rt, "g3")))
 		out = append(out, model.Stmt{Kind: "insert", Table: "t0", Rows: [][]model.Val{row}}) // direct values: NULL and negatives
 	}
 	if rapid.Bool().Draw(rt, "hast1") {
@@ -468,13 +481,13 @@ func AggQuery(rt *rapid.T, db *model.DB) Select {
 	}
 	// grouping columns
 	ng := rapid.SampledFrom([]int{0, 0, 1, 1, 2, 2, 3}).Draw(rt, "ngroup")
-	gcols := rapid.Permutation([]string{"g1", "g2", "n"}).Draw(rt, "gperm")[:ng]
+	gcols := rapid.Permutation([]string{"g1", "g2", "n", "g3"}).Draw(rt, "gperm")[:ng]
 	type item struct {
 		it  SelItem
 		grp bool
 	}
 	var items []item
-	aliases := []string{"p", "q", "r"}
+	aliases := []string{"p", "q", "r", "s9"}
 	for gi, g := range gcols {
 		c := colRef(g)
 		it := SelItem{Kind: "col", Col: &c}
